@@ -416,4 +416,11 @@ theorem refAssign_ok_cases {env : MEnv} {h : Heap} {target root : Val} {orig : L
           | unreg => simp [hm] at href
           | unsupported => simp [hm] at href
 
+theorem covered_parts {env : MEnv} {h : Heap} {target : Val} {sroot : Bool} {orig : List Step}
+    {vs : ValSpec} {missing : Missing} (hc : covered env h target sroot orig vs missing = true) :
+    WF env = true ∧ classesOK env = true ∧ C01.wfSteps orig = true ∧ valWf vs = true ∧
+      valUnsupported h vs = false ∧ missingOK env orig missing = true := by
+  simp only [covered, Bool.and_eq_true, Bool.not_eq_true'] at hc
+  exact ⟨hc.1.1.1.1.1, hc.1.1.1.1.2, hc.1.1.1.2, hc.1.1.2, hc.1.2, hc.2⟩
+
 end Glom.C11
